@@ -57,6 +57,12 @@ func worldWire(w *World) {
 		w.Fail("frps: %v", err)
 	}
 	ptr := map[string]any{"useEncryption": enc, "useCompression": comp}
+	// a bandwidth limit adds another wrapper around the work connection on the client or the server side:
+	// whatever else is stacked there, the encryption must stay in the stack
+	if lim := w.Knob("bandwidth_limit_mode", 0, 2); lim > 0 {
+		ptr["bandwidthLimit"] = "1MB"
+		ptr["bandwidthLimitMode"] = []string{"", "client", "server"}[lim]
+	}
 	proxies := []map[string]any{
 		{"name": nameMk + "-tcp", "type": "tcp", "localIP": "127.0.0.1", "localPort": 9600, "remotePort": 20001, "transport": ptr},
 		{"name": nameMk + "-stcp", "type": "stcp", "localIP": "127.0.0.1", "localPort": 9600, "secretKey": sk, "transport": ptr},
@@ -143,7 +149,7 @@ func worldWire(w *World) {
 	}
 	if !okT || !okS || !okH {
 		viol("traffic", "tunnel-not-working", "traffic through the tunnels failed (tcp=%v stcp=%v http=%v; tls=%v enc=%v comp=%v proto=%s mux=%v)", okT, okS, okH, tlsOn, enc, comp, proto, tcpMux)
-		return
+		// what did cross the path is searched all the same
 	}
 	time.Sleep(2 * time.Second)
 	// everything that crossed the path between the clients and the server
